@@ -110,6 +110,30 @@ fn nonreflexive_all() -> Result<u64, String> {
             }
         }
     }
+    // zero-sized values are values too: a marker type that is never equal to anything (a zero-sized NaN)
+    #[derive(Clone, Copy)]
+    struct Never;
+    impl PartialEq for Never {
+        fn eq(&self, _: &Never) -> bool {
+            false
+        }
+    }
+    for n in 0..=20usize {
+        let mut a: hashbrown::HashMap<u8, Never, PlanBuild, CheckAlloc> = hashbrown::HashMap::with_hasher_in(PlanBuild::default(), CheckAlloc);
+        let mut b: hashbrown::HashMap<u8, Never, PlanBuild, CheckAlloc> = hashbrown::HashMap::with_capacity_and_hasher_in(40, PlanBuild::default(), CheckAlloc);
+        for i in 0..n {
+            a.insert(i as u8, Never);
+            b.insert((n - 1 - i) as u8, Never);
+        }
+        let c = a.clone();
+        let want = n == 0;
+        for (what, got) in [("a == b", a == b), ("b == a", b == a), ("a == a", a == a), ("a == a.clone()", a == c), ("a.clone() == a", c == a), ("!(a != b)", !(a != b))] {
+            if got != want {
+                return Err(format!("{what}: {n} entries whose zero-sized values are never equal: returned {got}, mathematical answer {want}"));
+            }
+            count += 1;
+        }
+    }
     Ok(count)
 }
 
